@@ -17,12 +17,97 @@ def project(r, case):
     return {"value": r["value"], "messages": r.get("messages")}
 
 
+def _recase(rnd, sid):
+    """the same style ID in another letter case (None when it has no other spelling)"""
+    how = rnd.choice(["upper", "lower", "swap", "one"])
+    if how == "one":
+        at = [i for i, ch in enumerate(sid) if ch.isalpha() and ord(ch) < 128]
+        if not at:
+            return None
+        i = rnd.choice(at)
+        v = sid[:i] + sid[i].swapcase() + sid[i + 1:]
+    else:
+        v = {"upper": ascii_upper(sid), "lower": sid.lower() if sid.isascii() else sid, "swap": sid.swapcase() if sid.isascii() else sid}[how]
+    return v if v != sid else None
+
+
+def case_variants(g, seed):
+    """style IDs are exact keys: in about half of the documents some style IDs exist in two letter cases (both defined,
+    both referenced, different names), and other-case spellings of defined IDs that the document does NOT define are
+    returned as extra decoy IDs for the mapping pools (own random stream: the document's stream is not shifted)"""
+    rnd = random.Random(seed * 7919 + 3)
+    extra = {"paragraph_ids": [], "run_ids": [], "table_ids": []}
+    if rnd.random() < 0.45:
+        return extra
+    for key, table in (("paragraph_ids", g.pstyles), ("run_ids", g.rstyles), ("table_ids", g.tstyles)):
+        base = list(table)
+        for sid, name in rnd.sample(base, rnd.randint(1, min(3, len(base)))):
+            v = _recase(rnd, sid)
+            if v is None or any(s == v for s, _ in table) or v in extra[key]:
+                continue
+            if rnd.random() < 0.6:
+                table.append((v, rnd.choice([None, "%s alt" % name if name else None, "other %s" % v.lower()])))
+            else:
+                extra[key].append(v)
+    return extra
+
+
+class SeqRun(A.ApiRun):
+    """a case may carry meta.history = earlier calls (parts, options) made in the same process: they are made (again)
+    right before the case's own call, so that a case that only fails after those calls is a failing input by itself"""
+    def real(self, case):
+        for h in (case.get("meta") or {}).get("history", ()):
+            A.ApiRun.real(self, {"parts": h["parts"], "options": h["options"]})
+        return A.ApiRun.real(self, case)
+
+
+def session_cases(seed, tier):
+    """a sequence of calls with ONE style_map text: a document with a non-empty embedded map, then the same document with
+    the embedded map disabled / removed, then other documents (own embedded map or none, flags random).  What a call
+    resolves to depends on its own arguments only; each later case carries the earlier calls as its history."""
+    rnd = random.Random(seed * 104729 + 11)
+    base = None
+    for j in range(12):
+        c = split_case(seed * 13 + j * 1000033 + 5, tier)
+        emb = [p for p in c["parts"] if p["name"] == "mammoth/style-map" and p["hex"]]
+        if c["options"]["styleMap"] and emb:
+            base = c
+            break
+    if base is None:
+        return [split_case(seed, tier)]
+    base["options"]["includeEmbedded"] = True
+    base["key"] = "c03-%d-s0" % seed
+    text = base["options"]["styleMap"]
+    seq = [base]
+    for k in range(rnd.randint(1, 3)):
+        how = rnd.choice(["disabled", "removed", "other", "other"])
+        if how == "other":
+            c = split_case(seed * 17 + k * 1000081 + 9, tier)
+            if rnd.random() < 0.4:
+                c["parts"] = [p for p in c["parts"] if p["name"] != "mammoth/style-map"]
+            c["options"] = dict(c["options"], styleMap=text)
+        else:
+            c = {"parts": list(base["parts"]), "options": dict(base["options"]), "features": base["features"]}
+            if how == "disabled":
+                c["options"]["includeEmbedded"] = False
+            else:
+                c["parts"] = [p for p in c["parts"] if p["name"] != "mammoth/style-map"]
+            c["options"]["includeDefault"] = rnd.random() < 0.5
+        c["meta"] = {"history": [{"parts": h["parts"], "options": h["options"]} for h in seq]}
+        c["key"] = "c03-%d-s%d" % (seed, k + 1)
+        seq.append(c)
+    return seq
+
+
 def split_case(seed, tier):
     """ordered mapping list split three ways between style_map, the embedded part and the defaults"""
     g = DocGen(seed, PROFILE)
+    undefined_variants = case_variants(g, seed)
     parts = g.package()
     rng = g.rng
     pools = C.pools_of(g)
+    for key, ids in undefined_variants.items():
+        pools[key] = pools[key] + ids
     lines = []
     for _ in range(rng.randint(1, 7)):
         mp = GS.gen_mapping(rng, pools, hostile=0.05, allow_sep=False, allow_bang=rng.random() < 0.3, hid=0)
@@ -45,11 +130,15 @@ def split_case(seed, tier):
 def run(out, tier, seed, model_ok):
     n = common.deepen(1500 if tier == "quick" else 20000)
     cs = [split_case(seed * 1000003 + i, tier) for i in range(n)]
-    run_ = A.ApiRun(out, "C03", model_ok, project, name="resolution")
+    for i in range(0, n, 12):
+        cs.extend(session_cases(seed * 1000003 + i, tier))
+    run_ = SeqRun(out, "C03", model_ok, project, name="resolution")
     run_.run(cs, nontrivial=lambda c, r: bool(c["options"]["styleMap"]))
     out.rule = ("documents whose paragraphs/runs/tables carry every combination of style ID, style name (any letter case), numbering level and list type, with ordered "
                 "mapping lists split at a random point between style_map and the embedded mammoth/style-map part, both flags random, `!` mappings included, near-miss "
-                "decoys drawn from the same pools; observation = the rendered HTML and messages, which are determined by the mapping each element resolves to; compared "
+                "decoys drawn from the same pools; observation = the rendered HTML and messages, which are determined by the mapping each element resolves to; "
+                "style IDs also in two letter cases (both defined or one a decoy); sequences of calls sharing one style_map text over documents with / without / "
+                "with disabled embedded maps, each later call replayed after its history; compared "
                 "with the Lean model whose resolution is the first-match specification proved in Properties/C03; non-trivial = a user mapping is present")
     out.extra["features"] = run_.stats
     out.sample({"options": cs[0]["options"]})
@@ -57,4 +146,7 @@ def run(out, tier, seed, model_ok):
 
 
 def replay(out, payload, model_ok):
-    A.replay_case(out, "C03", model_ok, payload, project)
+    case = payload["case"]
+    SeqRun(out, "C03", model_ok, project).run([dict(case, key="replay")])
+    out.rule = "replay of one case"
+    out.sample({"options": case["options"]})
